@@ -637,6 +637,16 @@ def apply_slice(body, d, log):
         seg = body[i:j]
         log.append({"rule": "R10", "note": f"slice from `{a}` to the end of the function body ({seg.count(chr(10))} lines)"})
         return "{\n" + seg + d.get("slice_tail", "") + "\n}"
+    if b.startswith("NEXT:"):
+        # end anchor = first occurrence after the (unique) start anchor
+        b = b[5:]
+        if body.count(a) != 1 or b not in body[body.index(a):]:
+            raise ExtractError(f"lost anchor: slice anchors match {body.count(a)}/0 times")
+        i = body.index(a)
+        j = body.index(b, i)
+        seg = body[i:j]
+        log.append({"rule": "R10", "note": f"slice between `{a}` and the next `{b}` ({seg.count(chr(10))} lines)"})
+        return "{\n" + seg + d.get("slice_tail", "") + "\n}"
     if body.count(a) != 1 or body.count(b) != 1:
         raise ExtractError(f"lost anchor: slice anchors match {body.count(a)}/{body.count(b)} times")
     i = body.index(a)
@@ -756,10 +766,17 @@ def emit_type(root, d):
     # strip doc comments / line comments inside type bodies
     body = re.sub(r"^\s*//.*$", "", body, flags=re.M)
     body = re.sub(r"\n\s*\n+", "\n", body)
+    rewrites = [{"rule": "R2/R3", "note": "attributes and docs dropped, fields made pub"}]
+    # R9: a field type that is opaque here is spelled as the prelude's external_body type
+    for a, b in d.get("retype", []):
+        if body.count(a) != 1:
+            raise ExtractError(f"lost anchor: retype `{a}` matches {body.count(a)} times in type {d['name']}")
+        body = body.replace(a, b)
+        rewrites.append({"rule": "R9", "note": f"field type `{a}` -> opaque `{b}`"})
     text = "".join(a + "\n" for a in kept_attrs) + "pub " + head + body + "\n"
     meta = {"id": d["name"], "file": d["file"],
             "src_lines": [line_of(src, toks[kw].start), line_of(src, toks[b1].end)],
-            "rewrites": [{"rule": "R2/R3", "note": "attributes and docs dropped, fields made pub"}]}
+            "rewrites": rewrites}
     return text, meta
 
 
@@ -812,6 +829,11 @@ def parse_template(path):
                 for extra in parts[2:]:
                     if extra.startswith("derive="):
                         dd["derive"] = [x for x in extra[7:].split(",") if x]
+                    elif extra.startswith("retype "):
+                        m = re.match(r"retype\s+<<(.*?)>>\s*==>\s*<<(.*)>>\s*$", extra)
+                        if not m:
+                            raise ExtractError(f"{path}:{i+1}: bad retype")
+                        dd.setdefault("retype", []).append((m.group(1), m.group(2)))
                 out.append(("type", dd))
             elif cur is None:
                 raise ExtractError(f"{path}:{i+1}: directive outside fn block: {cmd}")
